@@ -458,6 +458,10 @@ TNext ==
                     kept == (SetOf(ev.alloc) \ SetOf(ev.refd)) \ SetOf(ev.final)
                 IN /\ viol' = viol \o SetToSeq({V("C11.lost", s) : s \in lost} \cup {V("C11.retained", s) : s \in kept})
                    /\ UNCHANGED <<w, skip, seqno, rg>>
+         [] ev.k = "broken" /\ ~skip ->   \* the world could not even be read through valid calls of the public API
+                /\ viol' = Append(viol, V("ANY.world-unreadable", <<ev.where, ev.msg>>))
+                /\ skip' = TRUE
+                /\ UNCHANGED <<w, seqno, rg>>
          [] ev.k = "reg" ->
                 LET r == RegStep(ev) IN
                 /\ viol' = viol \o SetToSeq(r.vs)
